@@ -102,6 +102,8 @@ def transforms(rng, text, lex=None):
     ls = list(lines)
     for i in dl:
         m = DIR_RE.match(ls[i])
+        if m is None:
+            continue      # a directive line the pattern does not describe (the lexer found it): left as it is
         ls[i] = rng.choice(["", " ", "    ", "\t", "        "]) + ls[i][len(m.group(1)):]
     yield "indent", "\n".join(ls)
     # quoting of an unquoted first parameter
